@@ -161,6 +161,9 @@ func checkC09(c *Ctx) {
 	// C09.7 Kauri
 	c09Kauri(c)
 
+	// C09.8b a vote from a replica whose BLS proof of possession does not verify never counts (shared with C02.5/pop)
+	c.importFrom(checkC02, "C09.8", "C02.5/pop")
+
 	// C09.8 duplicate signers inside one signature (shared with C02.4)
 	for _, scheme := range []string{"ECDSA", "EDDSA"} {
 		fn := p.Method("security/crypto", scheme, "Verify")
